@@ -1,4 +1,5 @@
 import DnsVerif.Lemmas.Order
+import DnsVerif.Lemmas.OrderMsg
 
 /-! # C14 — encoding and decoding are deterministic pure functions (the part that is logic)
 
@@ -9,7 +10,13 @@ These theorems show that any other iteration order (any permutation, a different
 leads to an encoder state that no later operation can distinguish (`Enc.LookupEq`: same output bytes,
 same lookup function), for all names and all encoder states. Thread schedules are runtime behaviour the
 model cannot exhibit: they are exercised by the `mt.dns` correspondence stream (1/2/16 threads sharing
-the input buffer and the decoded value; every result must equal the model's single answer) — partial. -/
+the input buffer and the decoded value; every result must equal the model's single answer) — partial.
+
+The one-name theorem is lifted to the entry points (`Lemmas/OrderMsg.lean`): `encodeDnsWith σ`,
+`encodeRRWith σ`, `encodeQuestionWith σ`, `encodeNameWith σ` are the model's encoders with EVERY call of the
+compressing name writer replaced by `encNameWith (σ pos)`, `pos` = the output position of that name (so each
+name write of a message may use its own iteration order); `encodeDns_order_irrelevant` & co. state that the
+produced octets (or the error) do not depend on `σ`. -/
 
 namespace C14
 
@@ -34,5 +41,91 @@ theorem encName_order_irrelevant (σ : List (Name × Nat) → List (Name × Nat)
 theorem encNameWith_id (e : Enc) (n : Name) : encNameWith id e n = encName e n := _root_.encNameWith_id e n
 
 example : Enc.LookupEq {} {} := Enc.LookupEq.refl {}
+
+/-! ## Whole messages, records, questions, names -/
+
+open OrderMsg in
+/-- `Message::encode`: the octets (or the error) are the same for every family `σ` of iteration orders of
+the local `HashMap`s (one order per output position, i.e. per name write) -/
+theorem encodeDns_order_irrelevant (σ : Orders) (hσ : σ.Perm) (m : Msg) :
+    encodeDnsWith σ m = encodeDns m := encodeDnsWith_eq σ hσ m
+
+open OrderMsg in
+/-- any two families of iteration orders give the same result -/
+theorem encodeDns_order_irrelevant₂ (σ τ : Orders) (hσ : σ.Perm) (hτ : τ.Perm) (m : Msg) :
+    encodeDnsWith σ m = encodeDnsWith τ m := by
+  rw [encodeDnsWith_eq σ hσ, encodeDnsWith_eq τ hτ]
+
+/-- one order `σ` for all name writes -/
+theorem encodeDns_order_irrelevant_const (σ : List (Name × Nat) → List (Name × Nat))
+    (hσ : ∀ l, (σ l).Perm l) (m : Msg) : OrderMsg.encodeDnsWith (fun _ => σ) m = encodeDns m :=
+  OrderMsg.encodeDnsWith_const_eq σ hσ m
+
+open OrderMsg in
+/-- `RR::encode` -/
+theorem encodeRR_order_irrelevant (σ : Orders) (hσ : σ.Perm) (rr : RR) :
+    encodeRRWith σ rr = encodeRR rr := encodeRRWith_eq σ hσ rr
+
+open OrderMsg in
+/-- `Question::encode` -/
+theorem encodeQuestion_order_irrelevant (σ : Orders) (hσ : σ.Perm) (q : Question) :
+    encodeQuestionWith σ q = encodeQuestion q := encodeQuestionWith_eq σ hσ q
+
+open OrderMsg in
+/-- `DomainName::encode` -/
+theorem encodeName_order_irrelevant (σ : Orders) (hσ : σ.Perm) (n : Name) :
+    encodeNameWith σ n = encodeName n := encodeNameWith_eq σ hσ n
+
+open OrderMsg in
+/-- the state-level statement behind all of these: from lookup-equivalent encoder states, the message writer
+with permuted merges and the model's message writer end in lookup-equivalent states (or the same error) -/
+theorem encMsg_order_irrelevant (σ : Orders) (hσ : σ.Perm) {e1 e2 : Enc} (heq : Enc.LookupEq e1 e2)
+    (m : Msg) : ExceptRel Enc.LookupEq (encMsgWith σ e1 m) (encMsg e2 m) := encMsgWith_rel hσ heq m
+
+/-! ### Non-vacuity
+
+A response with one question and two answers whose names share the suffixes `a.c` and `c`
+(`www.a.c CNAME h.a.c`, `h.a.c NS n.a.c`); the iteration order is reversed at even output positions and
+kept at odd ones. The order really differs (the final tables are different lists) and the octets are the
+model's. -/
+
+/-- reverse at even positions, keep at odd positions -/
+def exOrders : OrderMsg.Orders := fun pos l => if pos % 2 = 0 then l.reverse else l
+
+theorem exOrders_perm : exOrders.Perm := by
+  intro pos l
+  unfold exOrders
+  split
+  · exact List.reverse_perm l
+  · exact List.Perm.refl l
+
+def exMsg : Msg :=
+  ⟨7, ⟨true, 0, true, false, true, true, false, false, 0⟩,
+    [⟨[[119, 119, 119], [97], [99]], 5, 1⟩],
+    [⟨[[119, 119, 119], [97], [99]], 5, 1, 60, .fields [.name [[104], [97], [99]]]⟩,
+     ⟨[[104], [97], [99]], 2, 1, 60, .fields [.name [[110], [97], [99]]]⟩], [], []⟩
+
+set_option maxRecDepth 16384 in
+example :
+    OrderMsg.encodeDnsWith exOrders exMsg = .ok
+      [0, 7, 133, 128, 0, 1, 0, 2, 0, 0, 0, 0, 3, 119, 119, 119, 1, 97, 1, 99, 0, 0, 5, 0, 1, 192, 12, 0, 5,
+       0, 1, 0, 0, 0, 60, 0, 4, 1, 104, 192, 16, 192, 37, 0, 2, 0, 1, 0, 0, 0, 60, 0, 4, 1, 110, 192, 16] ∧
+    encodeDns exMsg = OrderMsg.encodeDnsWith exOrders exMsg ∧
+    -- the tables at the end are different lists (the order was really permuted) …
+    (OrderMsg.encMsgWith exOrders {} exMsg).toOption.map (·.idx) = some
+      [([[110], [97], [99]], 53, 1), ([[104], [97], [99]], 37, 1),
+       ([[119, 119, 119], [97], [99]], 12, 0), ([[97], [99]], 16, 0), ([[99]], 18, 0)] ∧
+    (encMsg {} exMsg).toOption.map (·.idx) = some
+      [([[110], [97], [99]], 53, 1), ([[104], [97], [99]], 37, 1),
+       ([[99]], 18, 0), ([[97], [99]], 16, 0), ([[119, 119, 119], [97], [99]], 12, 0)] :=
+  ⟨rfl, rfl, rfl, rfl⟩
+
+/-- the theorem applies to the example -/
+example : OrderMsg.encodeDnsWith exOrders exMsg = encodeDns exMsg :=
+  encodeDns_order_irrelevant exOrders exOrders_perm exMsg
+
+/-- a single reversing order for all name writes -/
+example : OrderMsg.encodeDnsWith (fun _ => List.reverse) exMsg = encodeDns exMsg :=
+  encodeDns_order_irrelevant_const List.reverse List.reverse_perm exMsg
 
 end C14
